@@ -32,6 +32,27 @@ type Engine struct {
 	typeIds map[string]int
 	typeOf  []types.Type
 	loadErr []string
+	refMaps []types.Type // map types (int/string keys) of the module whose elements are single references
+}
+
+// noteRefMap records map types whose element is one reference (pointer, channel, map): for
+// these a fresh object is known to be no element of any map (newAlloc).
+func (e *Engine) noteRefMap(t types.Type) {
+	m, ok := t.Underlying().(*types.Map)
+	if !ok {
+		return
+	}
+	switch m.Elem().Underlying().(type) {
+	case *types.Pointer, *types.Chan, *types.Map:
+	default:
+		return
+	}
+	for _, o := range e.refMaps {
+		if types.Identical(o, t) {
+			return
+		}
+	}
+	e.refMaps = append(e.refMaps, t)
 }
 
 func funcKey(fn *ssa.Function) string {
@@ -110,6 +131,14 @@ func loadEngine(repo, verif string, patterns []string) (*Engine, error) {
 		isInit := fn.Name() == "init" || strings.HasPrefix(fn.Name(), "init#")
 		for _, b := range fn.Blocks {
 			for _, in := range b.Instrs {
+				switch x := in.(type) {
+				case *ssa.MakeMap:
+					e.noteRefMap(x.Type())
+				case *ssa.MapUpdate:
+					e.noteRefMap(x.Map.Type())
+				case *ssa.Lookup:
+					e.noteRefMap(x.X.Type())
+				}
 				for _, op := range in.Operands(nil) {
 					g, ok := (*op).(*ssa.Global)
 					if !ok {
